@@ -1,7 +1,7 @@
 (* C11 proofs.  Part 6: the header parsers are total - parse_etags never runs out of fuel on text without LF,
    parse_range_header never raises (Range.__init__ accepts whatever the loop built). *)
 From Coq Require Import ZArith Lia ZifyBool ZifyN.
-From Wz Require Import lib.Bytes lib.BytesFacts C11.Base C11.Gen C11.Model.
+From Wz Require Import lib.Bytes lib.BytesFacts C11.GenArith C11.Base C11.Gen C11.Model.
 Open Scope N_scope.
 
 (* ------------------------------------------------------------------ parse_etags: progress *)
@@ -130,26 +130,38 @@ Qed.
 Definition range_ok (p : Z * option Z) : bool :=
   match snd p with Some e => negb ((fst p <? 0)%Z || (fst p >=? e)%Z) | None => true end.
 
+(* what the regenerated comparisons of parse_range_header say (C11/GenArith.v): unfolding them here makes an
+   edited comparison, a dropped +1 or a changed last_end value break this file *)
+Lemma prh_specs :
+  (forall l, prh_suffix_blocked l = (l <? 0)%Z) /\ (forall b, prh_suffix_empty b = (b =? 0)%Z) /\
+  (forall b l, prh_begin_blocked b l = ((b <? l)%Z || (l <? 0)%Z)) /\ (forall p, prh_end_of p = (p + 1)%Z) /\
+  (forall b e, prh_empty_range b e = (b >=? e)%Z) /\
+  prh_last_end_init = 0%Z /\ prh_last_end_suffix = (-1)%Z /\
+  (forall e, prh_last_end_next (Some e) = e) /\ prh_last_end_next None = (-1)%Z.
+Proof. repeat split; reflexivity. Qed.
+
 Lemma parse_range_items_ok : forall items last_end acc rs,
   forallb range_ok acc = true ->
   parse_range_items items last_end acc = Some rs -> forallb range_ok rs = true.
 Proof.
+  destruct prh_specs as (S1 & S2 & S3 & S4 & S5 & S6 & S7 & S8 & S9).
   induction items as [|item0 rest IH]; intros last_end acc rs Hacc; cbn [parse_range_items]; cbv zeta.
   - intro H. injection H as <-. rewrite forallb_forall in *. intros x Hx. apply Hacc. apply in_rev. exact Hx.
   - pose proof (partition1_no DASH (ustrip item0)) as Hnd.
     destruct (partition1 DASH (ustrip item0)) as [bs oes]. cbn [fst] in Hnd.
     destruct bs as [|b0 bs']; destruct oes as [es|]; try discriminate.
-    + destruct (last_end <? 0)%Z; [discriminate|].
+    + destruct (prh_suffix_blocked last_end); [discriminate|].
       destruct (plain_int (ustrip item0)) as [b|]; [|discriminate].
-      destruct (b =? 0)%Z; [discriminate|]. apply IH. cbn [forallb range_ok snd]. exact Hacc.
+      destruct (prh_suffix_empty b); [discriminate|]. apply IH. cbn [forallb range_ok snd]. exact Hacc.
     + destruct (plain_int (ustrip (b0 :: bs'))) as [b|] eqn:Eb; [|discriminate].
       assert (Hb : (0 <= b)%Z)
         by (apply (plain_int_nodash (ustrip (b0 :: bs'))); [apply forallb_ustrip; exact Hnd|exact Eb]).
-      destruct ((b <? last_end)%Z || (last_end <? 0)%Z); [discriminate|].
+      destruct (prh_begin_blocked b last_end); [discriminate|].
       destruct (nonempty (ustrip es)).
       * destruct (starts_with [DASH] (ustrip es)); [discriminate|].
         destruct (plain_int (ustrip es)) as [e0|]; [|discriminate].
-        destruct (b >=? e0 + 1)%Z eqn:Ege; [discriminate|]. apply IH.
+        destruct (prh_empty_range b (prh_end_of e0)) eqn:Ege; [discriminate|]. apply IH.
+        rewrite S5 in Ege.
         cbn [forallb range_ok snd fst]. rewrite Hacc, Ege. replace (b <? 0)%Z with false by lia. reflexivity.
       * apply IH. cbn [forallb range_ok snd]. exact Hacc.
 Qed.
@@ -158,7 +170,7 @@ Lemma parse_range_header_total v : exists r, parse_range_header v = Ok r.
 Proof.
   unfold parse_range_header. destruct v as [s|]; [|eexists; reflexivity].
   destruct (partition1 EQS s) as [units [rng|]]; [|eexists; reflexivity].
-  destruct (parse_range_items (split_on COMMA rng) 0 []) as [rs|] eqn:E; [|eexists; reflexivity].
+  destruct (parse_range_items (split_on COMMA rng) prh_last_end_init []) as [rs|] eqn:E; [|eexists; reflexivity].
   apply parse_range_items_ok in E; [|reflexivity].
   change (range_init_ok rs) with (forallb range_ok rs). rewrite E. eexists. reflexivity.
 Qed.
@@ -169,7 +181,7 @@ Lemma parse_range_header_wf v r :
 Proof.
   unfold parse_range_header. destruct v as [s|]; [|discriminate].
   destruct (partition1 EQS s) as [units [rng|]]; [|discriminate].
-  destruct (parse_range_items (split_on COMMA rng) 0 []) as [rs|] eqn:E; [|discriminate].
+  destruct (parse_range_items (split_on COMMA rng) prh_last_end_init []) as [rs|] eqn:E; [|discriminate].
   apply parse_range_items_ok in E; [|reflexivity].
   change (range_init_ok rs) with (forallb range_ok rs). rewrite E. intro H. injection H as <-. exact E.
 Qed.
@@ -294,7 +306,7 @@ Proof.
   destruct (header_split (dec_N a ++ DASH :: dec_N b)) as [-> ->].
   destruct (dec_N_spec a) as (Hnea & Hda & _). destruct (dec_N_spec b) as (Hneb & Hdb & _).
   rewrite split_on_none by (apply spec_no_comma; exact Hdb).
-  cbn [parse_range_items]. cbv zeta. rewrite spec_strip by exact Hdb. rewrite spec_partition.
+  cbn [parse_range_items]. cbv zeta. cbv [prh_suffix_blocked prh_suffix_empty prh_begin_blocked prh_end_of prh_empty_range prh_last_end_init prh_last_end_suffix prh_last_end_next]. rewrite spec_strip by exact Hdb. rewrite spec_partition.
   destruct (dec_N a) as [|c r] eqn:Ea; [congruence|]. rewrite <- Ea.
   rewrite (ustrip_digits _ Hdb). rewrite Ea at 1. rewrite <- Ea. rewrite (ustrip_digits (dec_N a)) by (rewrite Ea; exact Hda).
   rewrite !plain_int_dec.
@@ -315,7 +327,7 @@ Proof.
   destruct (header_split (dec_N a ++ [DASH])) as [-> ->].
   destruct (dec_N_spec a) as (Hnea & Hda & _).
   rewrite split_on_none by (apply spec_no_comma; reflexivity).
-  cbn [parse_range_items]. cbv zeta. rewrite spec_strip by reflexivity. rewrite spec_partition.
+  cbn [parse_range_items]. cbv zeta. cbv [prh_suffix_blocked prh_suffix_empty prh_begin_blocked prh_end_of prh_empty_range prh_last_end_init prh_last_end_suffix prh_last_end_next]. rewrite spec_strip by reflexivity. rewrite spec_partition.
   destruct (dec_N a) as [|c r] eqn:Ea; [congruence|]. rewrite <- Ea.
   rewrite (ustrip_digits (dec_N a)) by (rewrite Ea; exact Hda).
   rewrite plain_int_dec.
@@ -333,7 +345,73 @@ Proof.
   assert (Hs : ustrip (DASH :: dec_N n) = DASH :: dec_N n).
   { apply strip_none. cbn [forallb]. rewrite (forallb_impl is_digit _ _ digit_not_ws Hd). reflexivity. }
   rewrite split_on_none by (cbn [forallb]; rewrite (forallb_impl is_digit _ _ digit_not_comma Hd); reflexivity).
-  cbn [parse_range_items]. cbv zeta. rewrite Hs. cbn [partition1]. rewrite N.eqb_refl.
+  cbn [parse_range_items]. cbv zeta. cbv [prh_suffix_blocked prh_suffix_empty prh_begin_blocked prh_end_of prh_empty_range prh_last_end_init prh_last_end_suffix prh_last_end_next]. rewrite Hs. cbn [partition1]. rewrite N.eqb_refl.
   replace (0 <? 0)%Z with false by lia. rewrite plain_int_neg_dec.
   replace (- Z.of_N n =? 0)%Z with false by lia. reflexivity.
+Qed.
+
+(* ------------------------------------------------------------------ several ranges, other units *)
+Lemma split_on_comma s1 s2 :
+  forallb (fun x => negb (x =? COMMA)) s1 = true -> split_on COMMA (s1 ++ COMMA :: s2) = s1 :: split_on COMMA s2.
+Proof.
+  induction s1 as [|x r IH]; cbn [app split_on forallb]; intro H.
+  - change (COMMA =? COMMA) with true. reflexivity.
+  - apply andb_prop in H. destruct H as [H1 H2]. destruct (x =? COMMA); [discriminate|]. rewrite (IH H2). reflexivity.
+Qed.
+
+(* one first-last item inside the loop *)
+Lemma item_first_last a b rest last acc :
+  a <= b -> (0 <= last)%Z -> (last <= Z.of_N a)%Z ->
+  parse_range_items ((dec_N a ++ DASH :: dec_N b) :: rest) last acc =
+  parse_range_items rest (Z.of_N b + 1)%Z ((Z.of_N a, Some (Z.of_N b + 1)%Z) :: acc).
+Proof.
+  intros Hab Hl0 Hla.
+  destruct (dec_N_spec a) as (Hnea & Hda & _). destruct (dec_N_spec b) as (Hneb & Hdb & _).
+  cbn [parse_range_items]. cbv zeta.
+  cbv [prh_suffix_blocked prh_suffix_empty prh_begin_blocked prh_end_of prh_empty_range prh_last_end_init prh_last_end_suffix prh_last_end_next].
+  rewrite spec_strip by exact Hdb. rewrite spec_partition.
+  destruct (dec_N a) as [|c r] eqn:Ea; [congruence|]. rewrite <- Ea.
+  rewrite (ustrip_digits _ Hdb). rewrite (ustrip_digits (dec_N a)) by (rewrite Ea; exact Hda).
+  rewrite !plain_int_dec.
+  replace ((Z.of_N a <? last)%Z || (last <? 0)%Z) with false by lia.
+  destruct (dec_N b) as [|cb rb] eqn:Eb; [congruence|]. cbn [nonempty starts_with].
+  pose proof Hdb as Hcb. cbn [forallb] in Hcb. apply andb_prop in Hcb. destruct Hcb as [Hcb _].
+  replace (DASH =? cb) with false by (unfold is_digit, DASH in *; lia). cbn [andb].
+  replace (Z.of_N a >=? Z.of_N b + 1)%Z with false by lia. reflexivity.
+Qed.
+
+Definition hdr_unit_first_last (u : str) (a b : N) : str := u ++ EQS :: dec_N a ++ DASH :: dec_N b.
+Definition hdr_two (a b c d : N) : str :=
+  s_bytes ++ EQS :: (dec_N a ++ DASH :: dec_N b) ++ COMMA :: (dec_N c ++ DASH :: dec_N d).
+
+(* unit=a-b for any unit text without "=": the unit is stripped and lower-cased, the range is read as usual *)
+Lemma parse_unit_first_last u a b : a <= b ->
+  forallb (fun c => negb (EQS =? c)) u = true ->
+  parse_range_header (Some (hdr_unit_first_last u a b)) =
+  Ok (Some {| r_units := lower (ustrip u); r_ranges := [(Z.of_N a, Some (Z.of_N b + 1)%Z)] |}).
+Proof.
+  intros Hab Hu. unfold parse_range_header, hdr_unit_first_last.
+  rewrite (partition1_app_stop EQS u _ Hu).
+  destruct (dec_N_spec b) as (_ & Hdb & _).
+  rewrite split_on_none by (apply spec_no_comma; exact Hdb).
+  change prh_last_end_init with 0%Z. rewrite item_first_last by lia.
+  cbn [parse_range_items rev app range_init_ok forallb fst snd].
+  replace ((Z.of_N a <? 0)%Z || (Z.of_N a >=? Z.of_N b + 1)%Z) with false by lia. reflexivity.
+Qed.
+
+(* bytes=a-b,c-d with a <= b < c <= d: two ranges *)
+Lemma parse_two a b c d : a <= b -> b < c -> c <= d ->
+  parse_range_header (Some (hdr_two a b c d)) =
+  Ok (Some {| r_units := s_bytes;
+              r_ranges := [(Z.of_N a, Some (Z.of_N b + 1)%Z); (Z.of_N c, Some (Z.of_N d + 1)%Z)] |}).
+Proof.
+  intros Hab Hbc Hcd. unfold parse_range_header, hdr_two.
+  destruct (header_split ((dec_N a ++ DASH :: dec_N b) ++ COMMA :: dec_N c ++ DASH :: dec_N d)) as [-> ->].
+  destruct (dec_N_spec b) as (_ & Hdb & _). destruct (dec_N_spec d) as (_ & Hdd & _).
+  rewrite split_on_comma by (apply spec_no_comma; exact Hdb).
+  rewrite split_on_none by (apply spec_no_comma; exact Hdd).
+  change prh_last_end_init with 0%Z. rewrite item_first_last by lia. rewrite item_first_last by lia.
+  cbn [parse_range_items rev app range_init_ok forallb fst snd].
+  replace ((Z.of_N a <? 0)%Z || (Z.of_N a >=? Z.of_N b + 1)%Z) with false by lia.
+  replace ((Z.of_N c <? 0)%Z || (Z.of_N c >=? Z.of_N d + 1)%Z) with false by lia. reflexivity.
 Qed.
